@@ -6,10 +6,13 @@ Import ListNotations.
 Open Scope list_scope.
 
 Lemma name_eqb_refl : forall n, name_eqb n n = true.
-Proof. intro n. unfold name_eqb. destruct (name_eq_dec n n); [reflexivity | contradiction]. Qed.
+Proof. induction n as [| x r IH]; cbn; [reflexivity | rewrite String.eqb_refl, IH; reflexivity]. Qed.
 
 Lemma name_eqb_eq : forall a b, name_eqb a b = true -> a = b.
-Proof. intros a b H. unfold name_eqb in H. destruct (name_eq_dec a b); [assumption | discriminate]. Qed.
+Proof.
+  induction a as [| x r IH]; intros [| y s] H; cbn in H; try discriminate; [reflexivity |].
+  apply andb_prop in H. destruct H as [H1 H2]. apply String.eqb_eq in H1. rewrite H1, (IH s H2). reflexivity.
+Qed.
 
 (* ------------------------------------------------------------------ an absolute name resolves to itself *)
 Theorem resolve_absolute_idempotent_lemma : forall vis pkg chain only_types p d,
